@@ -85,7 +85,7 @@ def _is_plain_alias(du: DefUse, name: str, node, attrs: Set[str]):
         v = def_value(dn, name)
         while isinstance(v, ast.Call) and isinstance(v.func, ast.Name) and v.func.id == "cast" and len(v.args) == 2:
             v = v.args[1]
-        yield isinstance(v, ast.Attribute) and v.attr in attrs
+        yield (isinstance(v, ast.Attribute) and v.attr in attrs) or (isinstance(v, ast.Constant) and v.value is None)
 
 
 def self_check_truthiness() -> bool:
@@ -179,3 +179,110 @@ def self_check_one_shot(idx: Index) -> bool:
     rep = Report("X", "quick", 0)
     one_shot_iterator_reuse(rep, "T19", idx, [fi], gens={"objects"})
     return any(not o.ok for o in rep.obligations)
+
+
+# ----------------------------------------------------------------------------- T20 left/lower - right/upper pairing
+_LEFT = ("left", "lower", "start")
+_RIGHT = ("right", "upper", "end")
+
+
+def _side_words(txt: str) -> Tuple[bool, bool]:
+    t = txt.lower()
+    return any(w in t for w in _LEFT), any(w in t for w in _RIGHT)
+
+
+def openness_pairing(rep: Report, rule: str, funcs: Iterable[FuncInfo]) -> int:
+    """T20: `is_left_open` belongs with the lower bound / left side, `is_right_open` with the upper bound / right
+    side. Checked forms: keyword or positional pairs handed on to an interval constructor, conditional
+    expressions / if-statements that choose a strict or non-strict comparison for one bound."""
+    n = 0
+    for f in funcs:
+        sites = [x for x in walk_no_nested(f.node) if isinstance(x, ast.Call) and call_name(x) in ("is_left_open", "is_right_open")]
+        if not sites:
+            continue
+        rep.note_function(f.qualname)
+        for n_ in walk_no_nested(f.node):
+            # (a) keyword pairing
+            if isinstance(n_, ast.Call):
+                for k in n_.keywords:
+                    if k.arg in ("is_left_open", "is_right_open") and isinstance(k.value, ast.Call) and call_name(k.value) in ("is_left_open", "is_right_open"):
+                        n += 1
+                        ok = call_name(k.value) == k.arg
+                        rep.check(ok, rule, f"{f.short}: keyword {k.arg} receives the same side's openness", f.loc(k.value), construct=f"{k.arg}={norm(k.value)}", detail="" if ok else "left and right openness are swapped when the interval is rebuilt", function=f.qualname)
+                # (b) positional order: left before right
+                pos = [(i, call_name(a)) for i, a in enumerate(n_.args) if isinstance(a, ast.Call) and call_name(a) in ("is_left_open", "is_right_open")]
+                if len(pos) == 2:
+                    n += 1
+                    ok = pos[0][1] == "is_left_open" and pos[1][1] == "is_right_open"
+                    rep.check(ok, rule, f"{f.short}: openness flags are passed as (left, right)", f.loc(n_), construct=norm(n_)[:100], detail="" if ok else "the two openness flags are passed in the wrong order", function=f.qualname)
+            # (c) conditional choice per side
+            test = None
+            bodies: List[ast.AST] = []
+            target_txt = ""
+            if isinstance(n_, ast.IfExp):
+                test, bodies = n_.test, [n_.body, n_.orelse]
+            elif isinstance(n_, ast.If):
+                test, bodies = n_.test, list(n_.body) + list(n_.orelse)
+            if test is None:
+                continue
+            preds = {call_name(c) for c in ast.walk(test) if isinstance(c, ast.Call) and call_name(c) in ("is_left_open", "is_right_open")}
+            if len(preds) != 1:
+                continue
+            pred = next(iter(preds))
+            txt = " ".join(norm(b) for b in bodies)
+            if isinstance(n_, ast.IfExp):
+                # the assignment target names the side as well
+                for a in walk_no_nested(f.node):
+                    if isinstance(a, (ast.Assign, ast.AnnAssign)) and getattr(a, "value", None) is n_:
+                        target_txt = norm(a.targets[0] if isinstance(a, ast.Assign) else a.target)
+            has_l, has_r = _side_words(txt + " " + target_txt)
+            if not (has_l or has_r):
+                continue
+            n += 1
+            if pred == "is_left_open":
+                ok = has_l or not has_r
+            else:
+                ok = has_r or not has_l
+            rep.check(ok, rule, f"{f.short}: the branch on {pred}() concerns the {'lower/left' if pred == 'is_left_open' else 'upper/right'} side", f.loc(test), construct=f"{pred}() decides `{(target_txt + ' = ' if target_txt else '') + txt[:80]}`", detail="" if ok else f"{pred}() selects the strictness of the other bound (copy-paste of the sibling test)", function=f.qualname)
+    return n
+
+
+# ----------------------------------------------------------------------------- T21 swapped arguments
+def swapped_arguments(rep: Report, rule: str, idx: Index, funcs: Iterable[FuncInfo], min_sites: int = 0) -> int:
+    """T21: a call whose positional arguments are plain names that are *parameter names of the callee*, but at
+    other positions than their own (x passed for y and y passed for x). The callee is resolved by name and must
+    be unique in the index (self.m / Cls.m / module function); anything else is skipped."""
+    n = 0
+    for f in funcs:
+        for c in walk_no_nested(f.node):
+            if not isinstance(c, ast.Call) or len(c.args) < 2:
+                continue
+            nm = call_name(c)
+            if nm is None:
+                continue
+            cands = [g for g in idx.methods_by_name.get(nm, [])] + [g for g in idx.all_funcs() if g.cls is None and g.name == nm] if False else None
+            targets = idx.methods_by_name.get(nm, [])
+            mod_f = [g for q, g in idx.funcs.items() if g.cls is None and g.name == nm]
+            allc = {id(g): g for g in targets + mod_f}
+            if len(allc) != 1:
+                continue
+            callee = next(iter(allc.values()))
+            params = [p for p in callee.params() if p not in ("self", "cls")]
+            if len(params) < 2 or callee.node.args.vararg is not None:
+                continue
+            names = [a.id if isinstance(a, ast.Name) else None for a in c.args]
+            if any(isinstance(a, ast.Starred) for a in c.args):
+                continue
+            n += 1
+            swapped = []
+            for i, a in enumerate(names):
+                if a is None or i >= len(params):
+                    continue
+                if a in params and params.index(a) != i:
+                    j = params.index(a)
+                    if j < len(names) and names[j] is not None and names[j] in params and params.index(names[j]) == i:
+                        swapped.append((i, j, a, names[j]))
+            if swapped:
+                i, j, a, b = swapped[0]
+                rep.bad(rule, f"{f.short}: arguments of {nm}() match its parameter names position by position", f.loc(c), construct=f"{nm}({', '.join(x or '…' for x in names)}) vs parameters ({', '.join(params)})", detail=f"`{a}` is passed for parameter `{params[i]}` and `{b}` for `{params[j]}`: two arguments are swapped", function=f.qualname)
+    return n
